@@ -52,7 +52,7 @@ CLAIMED.update({
  "C02": _c("proof", "Theorems C02_filter_sound_partial / C02_rule_accepts / C02_not_bare: every attribute surviving the filtering loop is justified by a rule of the element (explicit entry else merged pattern entries) or a global rule accepting the decoded value, "
            "a well-formed data-* attribute, or the style filter; an element is never emitted bare unless allowed without attributes (all inputs, all policies). C02_final_list: every attribute of the list sanitizeAttrs returns is forced (rel/target/crossorigin/sandbox), justified and unchanged, or justified and replaced by validURL's result. C02_output_tokens: the same for every attribute a tokenizer reads from the output bytes (policies without raw-text elements). Partial: byte level for raw-text policies; covered by the attrs correspondence and the oracle.",
            "DESIGN.md section 5 C02", TIE_NOTE, "Coq proof over the model of sanitizeAttrs and the token loop + differential correspondence on sanitizeAttrs"),
- "C03": _c("proof", "Theorems C03_gate_partial / C03_url_pass / C03_positions: a value accepted by validURL is the re-serialisation of a successful parse whose scheme is allowlisted (custom checks, scheme patterns) or which is scheme-less with relative URLs allowed; white space survives only in data: values; at URL positions only that value is kept; "
+ "C03": _c("proof", "Theorems C03_gate_partial / C03_url_pass / C03_positions: a value accepted by validURL is the re-serialisation of a successful parse whose scheme is allowlisted (custom checks, scheme patterns) or which is scheme-less with relative URLs allowed; white space survives only in data: values; at URL positions only that value is kept (C03_final_list: also in the list sanitizeAttrs finally returns, with the rewriter's result for src); "
            "the fifteen positions are covered by linkable() and the URL switch (regenerated tables). Partial: the link between Go's parser and browser scheme extraction is an oracle hypothesis (monitored) and an output oracle.",
            "DESIGN.md section 5 C03, 3.5", TIE_NOTE, "Coq proof over the model of validURL with net/url as oracle + generated-table instance facts + differential correspondence + WHATWG output oracle"),
  "C10": _c("proof", "Theorems C10_filter / C10_no_rule_no_keep / C10_empty_dropped: the exact characterisation of the rebuilt style value (declarations kept in order iff a rule of the element or a global rule accepts the lower-cased, escape-stripped value for the lower-cased, prefix-stripped property). Partial: browser-equivalence of removeUnicode and of douceur's tokenisation is not claimed.",
